@@ -67,7 +67,7 @@ PROPS = {
         "audit_kinds": ["time_check", "time_write"],
         "corpus": ["C05"],
         "assumptions": COMMON_ASSUME + ["clock readings stay far below the Instant range (checked_add cannot fail)"],
-        "level_text": "Proved for both caches, every ttl (incl. 0, with or without tti), every clock-advance pattern, history and (sync) placement of sync() with any queue state: C05_unsync, C05_sync. For every interleaving of the many-thread model ConcS.lean (operations ordered by their map steps; reads held by a thread across clock steps, updates and invalidations and enqueued late) the oracle accepts the linearised trace (ConcS_C05; ConcF_C05 for the finest model, where other threads step between the individual map accesses of maintenance). Real OS threads: stress only. The lookup's guard scope as a model of its own (ConcG.lean): ConcG_get_fresh (no value is returned at or past write time + ttl when fetch and test are atomic w.r.t. updates), ConcG_counterexample_split (guard released between fetch and test: the seeded change C05f). An update's clock reading and its map write as the two steps they are (ConcT.lean: any number of threads; between the reading and the write other threads advance the clock, update the key with a later reading, complete an invalidate_all): with the code's plain store of the reading into the shared timestamp — the store itself is translated from entry_info.rs on every run (group Stamps) — a value whose insert read the clock at r is never returned at a reading >= r + ttl nor after an invalidate_all with a strictly later reading has completed, for every interleaving (ConcT_run_fresh); with a forward-only store (the seeded changes C01h, C05i) both fail (ConcT_counterexample_ttl, ConcT_counterexample_watermark).",
+        "level_text": "Proved for both caches, every ttl (incl. 0, with or without tti), every clock-advance pattern, history and (sync) placement of sync() with any queue state: C05_unsync, C05_sync. For every interleaving of the many-thread model ConcS.lean (operations ordered by their map steps; reads held by a thread across clock steps, updates and invalidations and enqueued late) the oracle accepts the linearised trace (ConcS_C05; ConcF_C05 for the finest model, where other threads step between the individual map accesses of maintenance). Real OS threads: stress only. The lookup's guard scope as a model of its own (ConcG.lean): ConcG_get_fresh (no value is returned at or past write time + ttl when fetch and test are atomic w.r.t. updates), ConcG_counterexample_split (guard released between fetch and test: the seeded change C05f). An update's clock reading and its map write as the two steps they are (ConcT.lean: any number of threads; between the reading and the write other threads advance the clock, update the key with a later reading, complete an invalidate_all): with the code's plain store of the reading into the shared timestamp — the store itself is translated from entry_info.rs on every run (group Stamps) — a value whose insert read the clock at r is never returned at a reading >= r + ttl nor after an invalidate_all with a strictly later reading has completed, for every interleaving (ConcT_run_fresh); with a forward-only store (the seeded changes C01h, C05i) both fail (ConcT_counterexample_ttl, ConcT_counterexample_watermark). On the implementation that window is reached deterministically (inject component, profile stamp: at the clock reading of a scripted whole-call insert another logical thread advances the clock and updates the key; the scripted call's older reading is noted in the trace) and judged by the run-time form of ConcT_run_fresh.",
         "level_note": "Theorems about Unsync.lean (timestamps live in the write-order nodes, as in the code) and Sync.lean (timestamps in the shared EntryInfo); tie = differential runs with boundary-landing clock steps + time-site audit.",
     },
     "C06": {
@@ -416,6 +416,11 @@ MIRI_CONC = [("miri-conc", ["accept+quiet"] * 6, 40, 0)]
 INJECT = ("inject", ["mixed", "churn", "growth", "oversize", "scan"], 60, 50)
 for _k in ("C01", "C02", "C03", "C04", "C07", "C08", "C10", "C11"):
     PROPS[_k]["components"] = list(PROPS[_k]["components"]) + [INJECT]
+# model T on the implementation (round 10): scripted whole-call updates overtaken at their clock reading by
+# another logical thread's later update (inject component, profile stamp), judged by the run-time form of
+# ConcT_run_fresh (Python oracle "T") beside the C05 oracle
+PROPS["C05"]["components"] = list(PROPS["C05"]["components"]) + [("inject", ["stamp"], 40, 30)]
+PROPS["C05"]["oracle"] = "C05+T"
 # Tight real-thread loops with an online oracle (harness `hammer`): watermark = a completed
 # invalidate_all is never undone for a later get; mono = completed inserts are never superseded
 # backwards for a reader; syncs = explicit sync() beside the writers' own housekeeping: no panic, exact
